@@ -1,7 +1,7 @@
 """Driver configuration and manifest text for C08 (see DESIGN.md)."""
 
 CHECK = {'pkg': '.',
- 'parts': [{'name': 'plan', 'test': 'TestVF_C08', 'quick': {'shards': 4, 'checks': 6000}, 'thorough': {'shards': 16, 'checks': 150000}}],
+ 'parts': [{'name': 'plan', 'test': 'TestVF_C08', 'shrinktime': '2s', 'quick': {'shards': 4, 'checks': 6000}, 'thorough': {'shards': 16, 'checks': 150000}}],
  'rule': 'rapid draws a strategy (range/roundrobin/sticky), 1-6 members with drawn ids, subscription sets over 1-4 topics (identical / random / '
          'disjoint), sorted partition id lists of 1-8 ids (sometimes with holes) and, for sticky, a chain of 1-6 rebalances (join, leave, '
          'subscription change, grow, shrink, topic recreated) whose user data is the previous plan or hostile (stale generation, V0, copied from '
